@@ -83,6 +83,9 @@ pub fn set_static(kind: u32, text: &str) {
     t.retain(|(k, _)| *k != kind);
     t.push((kind, leaked));
 }
+pub fn unset_static(kind: u32) {
+    STATICS.write().unwrap().retain(|(k, _)| *k != kind);
+}
 pub fn clear_statics() {
     STATICS.write().unwrap().clear();
 }
@@ -217,6 +220,8 @@ pub struct BoxI {
     pub fail_next: bool,
     pub calls:     usize,
     pub backend:   String,
+    /// `user_fwd`: the call already went through the reference forwarding
+    pub in_ref:    bool,
 }
 
 impl fmt::Debug for BoxI {
@@ -238,6 +243,16 @@ impl Interner<TokenKey> for BoxI {
     type Error = String;
 
     fn try_get_or_intern(&mut self, text: &str) -> Result<TokenKey, String> {
+        if self.backend == "user_fwd" && !self.in_ref {
+            self.in_ref = true;
+            let r = {
+                let mut v = ViaProvided(self);
+                let mut r: &mut ViaProvided<'_> = &mut v;
+                <&mut ViaProvided<'_> as Interner<TokenKey>>::try_get_or_intern(&mut r, text)
+            };
+            self.in_ref = false;
+            return r;
+        }
         self.calls += 1;
         if self.fail_next {
             self.fail_next = false;
@@ -250,6 +265,13 @@ impl Interner<TokenKey> for BoxI {
             // a user-written interner implements `try_get_or_intern` only: go through the trait's *provided*
             // `get_or_intern`, so that what the crate does there (panic on the first error) is under test
             return ViaProvided(self).get_or_intern(text);
+        }
+        if self.backend == "user_fwd" {
+            // the same interner handed over as `&mut I`: the crate's forwarding impl for mutable references sits
+            // between the builder and the interner that fails on command
+            let mut v = ViaProvided(self);
+            let mut r: &mut ViaProvided<'_> = &mut v;
+            return <&mut ViaProvided<'_> as Interner<TokenKey>>::get_or_intern(&mut r, text);
         }
         self.calls += 1;
         if self.fail_next {
@@ -313,7 +335,7 @@ pub fn make_interner(backend: &str) -> Option<BoxI> {
         }
         #[cfg(not(feature = "lasso"))]
         "builtin_arc" => Box::new(ArcBuiltin(std::sync::Arc::new(cstree::interning::new_interner()))),
-        "user" => Box::new(UserInterner::default()),
+        "user" | "user_fwd" => Box::new(UserInterner::default()),
         #[cfg(feature = "lasso")]
         "lasso_token" => Box::new(cstree::interning::new_interner()),
         #[cfg(feature = "lasso")]
@@ -343,13 +365,14 @@ pub fn make_interner(backend: &str) -> Option<BoxI> {
         fail_next: false,
         calls: 0,
         backend: backend.to_string(),
+        in_ref: false,
     })
 }
 
 pub fn backends() -> Vec<&'static str> {
     #[cfg(not(feature = "lasso"))]
     {
-        vec!["builtin", "mutref", "builtin_arc", "user"]
+        vec!["builtin", "mutref", "builtin_arc", "user", "user_fwd"]
     }
     #[cfg(feature = "lasso")]
     {
@@ -363,6 +386,7 @@ pub fn backends() -> Vec<&'static str> {
             "threaded_spur",
             "threaded_spur_ref",
             "user",
+            "user_fwd",
         ]
     }
 }
